@@ -64,6 +64,8 @@ func (e *Engine) verifyFunc(f *ssa.Function, ct *Contract) *FnVC {
 			// a captured variable is bound by reference to an existing cell
 			if _, isPtr := types.Unalias(b.Type()).Underlying().(*types.Pointer); isPtr {
 				fv.assume("true", not(eq(v.T, "LNil")))
+				// the cell of a captured variable is an allocation of its own (never a field or an element)
+				fv.assume("true", eq("(lpath "+v.T+")", "PNil"))
 			}
 		}
 		in.vals[b] = v
